@@ -115,7 +115,7 @@ def rnd_desc(rng: random.Random, i: int) -> dict[str, Any]:
     tl.sort(key=lambda x: x[0])      # stable: same-instant operations keep their order
     desc: dict[str, Any] = {'seed': rng.randrange(1 << 30), 'handlers': handlers, 'timeline': tl, 'quiet': 12.0, 'horizon': 400.0, 'latency': 0.001,
                             'settings': {'queueing__idle_timeout': 1.0, 'persistence__consistency_timeout': 0.5, 'background__cancellation_polling': 1.0},
-                            'end': 'stop', 'exit_wait': 120.0}
+                            'end': 'stop', 'exit_wait': 120.0, 'post_yields': rng.choice([0, 0, 0, 1, 2, 3, 5, 8])}
     if peering:
         desc['peering'] = {'name': 'default'}
     return desc
